@@ -1,6 +1,7 @@
 import Sebuf.Lemmas.Surgery
 import Sebuf.Lemmas.Bytes
 import Sebuf.Props.C14
+import Sebuf.Lemmas.GoJson
 /-!
 # C04 — generated Go JSON codecs round-trip every message value
 
@@ -11,8 +12,20 @@ object, key and value: decode-edit ∘ encode-edit restores the protojson object
 round-trips (int64 NUMBER, nullable, UNIX_SECONDS up to the documented sub-second loss, every
 bytes encoding), and the go-http / go-client templates are the same program. The flatten template
 resets the child it has just assigned (`flatten_child_lost`, known finding), the corrected order
-would keep it. The harness runs real encode→decode on the emitted code for every generated
-schema × value, and decodes `Spec` JSON (the canonical form another party produces).
+would keep it.
+
+Three templates encode and decode children through Go's `encoding/json` (flatten, discriminated
+oneof, map-value-unwrap container; root unwrap of scalars likewise). For those the `Impl` model is
+value-level and executable: `GoJson.serverEnc` / `GoDec.serverDec` predict the emitted bytes and
+the decoded message (or the error) exactly; the harness checks both against the compiled code on
+every case. Proved about them here: the flattened-oneof round trip under the side condition
+"the members encoding/json writes are the ones the decoder looks up" (single-word field names),
+`oneof_flatten_roundtrip_partial`, with the multi-word counter-witness; and, by kernel evaluation
+of the model on closed schemas, one witness per root cause the harness files a divergence under
+(these are the `lean_theorem`s of the C04 entries of known_findings.json) next to the round trips
+that DO hold (empty / all-default flattened variants, map-value unwrap of scalar lists).
+The harness runs real encode→decode on the emitted code for every generated schema × value, and
+decodes `Spec` JSON (the canonical form another party produces).
 -/
 namespace Sebuf.C04
 open Sebuf Sebuf.Surgery Sebuf.Json
@@ -63,6 +76,127 @@ theorem flatten_other_order_keeps_child (childKeys : List Str) (raw : Obj)
     (h : extractChild childKeys raw ≠ []) :
     (flattenDecodeFixed childKeys raw).child = some (extractChild childKeys raw) :=
   flatten_fixed_keeps_child childKeys raw h
+
+/-! ### the encoding/json templates (value-level `Impl` model) -/
+
+section GoJsonTemplates
+open Sebuf.GoJson Sebuf.GoDec Sebuf.GoJson.W Sebuf.Mapping
+
+/-- **flattened discriminated oneof, partial round trip** (object surgery, any parent object `p`,
+any variant members `vm`, any re-marshalling): when every member encoding/json wrote for the
+variant is a name the decoder looks up — the struct tag (proto name) equals the JSON name, i.e.
+single-word field names — the decoder extracts exactly what the encoder merged and hands
+protojson the parent's own object with the variant member restored. -/
+theorem oneof_flatten_roundtrip_partial (disc vk : Str) (tag : Json) (names : List Str)
+    (remarshal : Obj → Json) (vm p : Obj)
+    (hnd : (Json.keys vm).Nodup) (hsingle : ∀ k ∈ Json.keys vm, k ∈ names)
+    (hdisjoint : ∀ n ∈ names, oget n p = none) (hdiscN : disc ∉ names) (hvkN : vk ∉ names)
+    (hvd : vk ≠ disc) (hdp : oget disc p = none) :
+    ObjEq (OneofFlat.extract names (OneofFlat.encEdit disc tag vk vm p)) vm ∧
+    ObjEq (OneofFlat.decEdit disc vk names remarshal (OneofFlat.encEdit disc tag vk vm p))
+      (oset vk (remarshal (OneofFlat.extract names (OneofFlat.encEdit disc tag vk vm p))) p) :=
+  OneofFlat.roundtrip_partial disc vk tag names remarshal vm p hnd hsingle hdisjoint hdiscN hvkN hvd hdp
+
+/-- non-vacuity: the `single` variant of the witness schema (`body` is a single-word name). -/
+example : (Json.keys [(s "body", W.str "b")]).Nodup ∧ (∀ k ∈ Json.keys [(s "body", W.str "b")], k ∈ [s "body", s "big", s "ratio"]) ∧
+    (∀ n ∈ [s "body", s "big", s "ratio"], oget n [(s "ident", W.str "i")] = none) ∧
+    s "type" ∉ [s "body", s "big", s "ratio"] ∧ s "single" ∉ [s "body", s "big", s "ratio"] ∧ s "single" ≠ s "type" := by decide
+
+/-- the model's encoder merges a flattened variant with the very `merge` of that theorem. -/
+theorem oneof_flatten_model_merge (kvs raw : List (Str × Json)) : mergeInto [] kvs raw = OneofFlat.merge kvs raw :=
+  mergeInto_nil kvs raw
+
+/-- the side condition holds on the value level: single-word variant fields round-trip, a 64-bit
+integer included (written as a number by encoding/json, read back by protojson). -/
+theorem oneof_flatten_roundtrip_single_word :
+    roundTrip oneFlat [(s "ident", vstr "i"), (s "single", .msg [(s "body", vstr "b"), (s "big", .int 5)])] =
+    some (.ok [(s "ident", vstr "i"), (s "single", .msg [(s "body", vstr "b"), (s "big", .int 5)])]) := oneFlat_roundtrip_single
+
+/-- a selected variant that contributes NO member (empty message type, or every field at its
+default) keeps its oneof case through the round trip. -/
+theorem oneof_flatten_roundtrip_empty_variant :
+    roundTrip oneFlat [(s "ident", vstr "i"), (s "gone", .msg [])] = some (.ok [(s "ident", vstr "i"), (s "gone", .msg [])]) ∧
+    roundTrip oneFlat [(s "single", .msg [])] = some (.ok [(s "single", .msg [])]) :=
+  ⟨oneFlat_roundtrip_empty_variant, oneFlat_roundtrip_default_variant⟩
+
+/-- **counter-witness** (known finding `roundtrip_error:oneof_flatten_multiword_variant_key`): the
+multi-word field `lang_code` is written under its struct tag and looked up as `langCode`; the
+member stays in the object and protojson refuses it. -/
+theorem oneof_flatten_roundtrip_multiword_rejected :
+    roundTrip oneFlat [(s "ident", vstr "i"), (s "multi_word", .msg [(s "lang_code", vstr "en")])] =
+    some (.error (.unknownField (s "lang_code"))) := oneFlat_roundtrip_multiword
+
+/-- `roundtrip:oneof_flatten_variant_dropped_on_marshal_error`: NaN in a flattened variant — the
+marshal error is swallowed, the variant's members never reach the wire. -/
+theorem oneof_flatten_nan_variant_dropped :
+    roundTrip oneFlat [(s "single", .msg [(s "body", vstr "b"), (s "ratio", .float (s "NaN") true)])] =
+    some (.ok [(s "single", .msg [])]) := oneFlat_roundtrip_nan
+
+/-- `roundtrip_error:oneof_nested_variant_via_encoding_json`: the nested variant is written by
+protojson (64-bit integer = string) and pre-read by encoding/json (string into int64 = error). -/
+theorem oneof_nested_roundtrip_int64_rejected :
+    roundTrip oneNest [(s "single", .msg [(s "big", .int 5)])] = some (.error (.goType (s "big"))) := oneNest_roundtrip_int64
+
+/-- `roundtrip_error:flatten_multiword_child_key`. -/
+theorem flatten_roundtrip_rejects_own_output :
+    roundTrip flat [(s "title", vstr "t"), (s "home", .msg [(s "zip_code", vstr "z")])] =
+    some (.error (.unknownField (s "home_zip_code"))) := flat_roundtrip_multiword
+
+/-- `roundtrip:flatten_child_lost`, on the value level (cf. `flatten_loses_child`). -/
+theorem flatten_roundtrip_loses_child_value :
+    roundTrip flat [(s "title", vstr "t"), (s "home", .msg [(s "street", vstr "x")])] = some (.ok [(s "title", vstr "t")]) :=
+  flat_roundtrip_child_lost
+
+/-- `roundtrip_error:flatten_child_oneof_key`: a child with a oneof always contributes
+`prefix + GoFieldName` (`null` when unset), which no decoder step consumes. -/
+theorem flatten_child_oneof_key_rejected :
+    roundTrip flatPick [(s "inner", .msg [(s "name", vstr "n")])] = some (.error (.unknownField (s "in_MyChoice"))) := flatPick_roundtrip
+
+/-- map-value unwrap of SCALAR lists round-trips, in a container and as the combined root map
+(several entries of equal length: every entry keeps its own list). -/
+theorem unwrap_map_scalar_roundtrip :
+    roundTrip cont [(s "by_n", .map [(s "x", .msg [(s "nums", .list [.int 1, .int 2])]), (s "y", .msg [(s "nums", .list [.int 3, .int 4])])]), (s "big_i", .int 7)] =
+      some (.ok [(s "by_n", .map [(s "x", .msg [(s "nums", .list [.int 1, .int 2])]), (s "y", .msg [(s "nums", .list [.int 3, .int 4])])]), (s "big_i", .int 7)]) ∧
+    roundTrip root [(s "entries", .map [(s "x", .msg [(s "nums", .list [.int 1, .int 2])]), (s "y", .msg [(s "nums", .list [.int 3, .int 4])])])] =
+      some (.ok [(s "entries", .map [(s "x", .msg [(s "nums", .list [.int 1, .int 2])]), (s "y", .msg [(s "nums", .list [.int 3, .int 4])])])]) :=
+  ⟨cont_roundtrip, root_roundtrip⟩
+
+/-- `roundtrip:negative_zero_dropped_by_omitempty` (`x.Dbl != 0` / `omitempty` skip -0.0). -/
+theorem container_negative_zero_lost : roundTrip cont [(s "dbl", .float (s "-0") false)] = some (.ok []) := cont_roundtrip_negzero
+
+/-- `roundtrip:optional_empty_bytes_dropped_by_omitempty` (`optional bytes` is a plain slice). -/
+theorem container_empty_optional_bytes_lost :
+    roundTrip cont [(s "by_o", .map [(s "k", .msg [(s "opt_y", .bytes []), (s "tag", vstr "t")])])] =
+    some (.ok [(s "by_o", .map [(s "k", .msg [(s "tag", vstr "t")])])]) := cont_roundtrip_empty_optional_bytes
+
+/-- `encode_error:*`: encoding/json fails on NaN / ±Inf and on `map<bool, _>`. -/
+theorem encoding_json_encode_errors :
+    serverEnc W.rq 12 flatFlags [(s "inner", .msg [(s "ratio", .float (s "NaN") true)])] = none ∧
+    serverEnc W.rq 12 flatFlags [(s "inner", .msg [(s "flags", .map [(s "true", vstr "x")])])] = none ∧
+    serverEnc W.rq 12 ratios [(s "items", .list [.float (s "Infinity") true])] = none ∧
+    serverEnc W.rq 12 cont [(s "dbl", .float (s "NaN") true)] = none :=
+  ⟨flatFlags_nan, flatFlags_bool_map, ratios_nan, cont_nan⟩
+
+/-- `decode_contract_form*`: the documented JSON written by another party. -/
+theorem contract_form_decoding :
+    -- flatten: accepted, the child is gone
+    serverDec W.rq 12 flat (Json.obj [(s "title", W.str "t"), (s "home_street", W.str "x"), (s "home_zipCode", W.str "z")]) = .ok [(s "title", vstr "t")] ∧
+    -- flatten: a 64-bit child field in its documented form (decimal string) is refused
+    serverDec W.rq 12 flat (Json.obj [(s "home_big", W.str "5")]) = .error (.goType (s "big")) ∧
+    -- flattened oneof: the multi-word member is dropped
+    serverDec W.rq 12 oneFlat (Json.obj [(s "type", W.str "mw"), (s "langCode", W.str "en"), (s "url", W.str "u")]) = .ok [(s "multi_word", .msg [(s "url", vstr "u")])] ∧
+    serverDec W.rq 12 oneFlat (Json.obj [(s "type", W.str "single"), (s "big", W.str "5")]) = .error (.goType (s "big")) ∧
+    serverDec W.rq 12 oneFlat (Json.obj [(s "type", W.str "single"), (s "ratio", Json.num (JNum.float (s "-0")))]) = .ok [(s "single", .msg [])] ∧
+    serverDec W.rq 12 oneNest (Json.obj [(s "type", W.str "single"), (s "single", Json.obj [(s "big", W.str "5")])]) = .error (.goType (s "big")) ∧
+    -- unwrap: scalars are read by encoding/json
+    serverDec W.rq 12 numList (Json.arr [W.str "5"]) = .error (.goType (s "nums")) ∧
+    serverDec W.rq 12 cont (Json.obj [(s "bigI", W.str "7")]) = .error (.goType (s "big_i")) ∧
+    serverDec W.rq 12 cont (Json.obj [(s "byK", Json.obj [(s "k", Json.obj [(s "street", W.str "x"), (s "zipCode", W.str "z")])])]) =
+      .ok [(s "by_k", .map [(s "k", .msg [(s "street", vstr "x")])])] :=
+  ⟨flat_contract_child_lost, flat_contract_int64, oneFlat_contract_multiword_dropped, oneFlat_contract_int64, oneFlat_contract_negzero,
+   oneNest_contract_int64, numList_contract, cont_contract_int64, cont_contract_member_dropped⟩
+
+end GoJsonTemplates
 
 /-- non-vacuity: a protojson object meeting the int64 contract. -/
 example : Int64Number.Contract "big".toList 5 [("a".toList, Json.bool true), ("big".toList, str (intToDec 5))] := by
